@@ -221,7 +221,7 @@ Proof.
     (* shapes of the TT cores *)
     assert (Hmid : Forall2 (fun G n => exists l r, shape G = [l; n; r]) fs (zip2 Nat.mul ins outs)).
     { unfold tensor_train in Ett. destruct (validate_tt_rank (ndim T) rank) as [rk|]; [|discriminate].
-      cbn [rbind] in Ett. exact (chain_loop_mid _ _ _ _ _ _ _ Ett). }
+      cbn [rbind] in Ett. destruct (ndim T <=? 1); [discriminate|]. exact (chain_loop_mid _ _ _ _ _ _ _ Ett). }
     unfold ttm_entry. rewrite chain4_reshape by (auto; lia).
     fold (tt_entry Op fs (merge_idx is_ js outs)).
     rewrite Hex by (apply inb_merge; auto; lia).
